@@ -32,7 +32,8 @@ fn freq_to_pll_step(freq_in_hz: u32) -> u32 {
     // Full-precision integer form of freq / 61.03515625. The previous
     // truncate-then-shift shortcut zeroed the low 8 pll-step bits, putting
     // fractional-MHz channels (868.1, 903.9, ...) up to ~15 kHz off.
-    (((freq_in_hz as u64) << 19) / 32_000_000) as u32
+    // rounded to the nearest step, like Semtech's reference driver
+    ((((freq_in_hz as u64) << 19) + 16_000_000) / 32_000_000) as u32
 }
 
 fn pll_step_to_freq(pll_step: u32) -> u32 {
